@@ -70,6 +70,18 @@ def _corpus_programs():
                                             F(3, "P", ["err", 5], sh="o"), F(4, "S", ["err", 4], nn=True, sh="in"), F(5, "C", I(5))]})
     ps.append({"op": "mutation", "fields": [F(0, "S", ["obj", [F(1, "C", ["err", 2], sh="i"), F(2, "D", ["err", 3], sh="i")]]),
                                             F(3, "C", I(3))]})
+    # a list item that cannot be completed (the union's resolve_type raises) after items with
+    # deferred / failing sub-fields: the field fails only once the started items are done, the later
+    # top-level field runs afterwards (witness of the defect repaired by /repo 60b475c)
+    for pos in (0, 1, 2):
+        items = [["obj", [F(1, "C", I(1)), F(2, "C", ["err", 3], sh="i")]], ["obj", [F(1, "C", I(5), lv=1), F(2, "C", I(6))]]]
+        items.insert(pos, ["bad"])
+        ps.append({"op": "mutation", "fields": [F(0, "C", ["list", pos == 1, "abs", items], nn=(pos == 2)), F(3, "C", I(3))]})
+    ps.append({"op": "mutation", "fields": [F(0, "S", ["obj", [F(1, "D", ["list", True, "abs", [["obj", [F(2, "C", I(2))]], ["bad"]]])]]),
+                                            F(3, "S", I(3)), F(4, "C", ["list", False, "abs", [["bad"]]])]})
+    # "1..n top-level fields" for a large n: 500 aliases of one synchronously resolved field
+    # (witness of the open finding serial-chain-recursion-large-mutation)
+    ps.append({"op": "mutation", "fields": [F(k, "S", I(k % 7)) for k in range(500)]})
     return ps
 
 
@@ -164,6 +176,10 @@ def _serial_violation(prog, events):
 
 def classify(case, obs):
     prog = case["prog"]
+    if (prog["op"] == "mutation" and len(prog["fields"]) >= 200 and case["config"] != "bexec"
+            and all(r.get("fail_other") == "RecursionError" for r in obs["runs"])):
+        # exactly: a large mutation fails with RecursionError under the generic executor
+        return "serial execution recurses once per top-level field", "serial-chain-recursion-large-mutation"
     for r in obs["runs"]:
         if prog["op"] == "mutation" and _serial_violation(prog, r.get("events", [])):
             return "later top-level field invoked before the earlier one (and its sub-selection) finished", None
